@@ -29,10 +29,14 @@ def check_case(c, tier, R):
         data = st[1]
         ok, why = CM.model_reads(c.T, data, c.v)
         base_feats = base_feats | {'encoder_output_ok' if ok else 'encoder_output_bad'}
+        if not ok:
+            base_feats = base_feats | c.kf(enc, data)
         results = {}
         for e2, dec in PAIRS:
             if e2 != enc:
                 continue
+            if dec == 'der' and 'any_nonder' in c.feats:
+                continue      # an ANY value that is not itself DER is not a DER value
             R.evaluations += 1
             R.nontrivial((c.T, M.freeze(c.v), enc, dec))
             feats = base_feats | {'dec:' + dec}
